@@ -187,6 +187,11 @@ def run(tier: str) -> Run:
                 if where_ == 'coords' and key is label and (obj is recv or obj.view_of is recv or recv.view_of is obj):
                     gid = val
         got = gid.term if isinstance(gid, SVar) else None
+        # every input point belongs to a run: nothing may be selected away before the runs are formed
+        if len(grouped) == 1:
+            pre = [k for v, k, r in pm.index if isinstance(k, SVar) and (r is grouped[0][0] or grouped[0][0].view_of is r)]
+            r2.check(not pre, 'all points are grouped', loc(pfi), {'selection_before_grouping': [T.show(k.term) if k.term is not None else repr(k) for k in pre][:2]},
+                     key='points-dropped')
         r2.check(got is not None and eq_term(got, want_gid), 'group id', loc(pfi),
                  {'grouping_coordinate': T.show(got) if got is not None else repr(gid), 'expected': T.show(want_gid), 'group_calls': len(grouped)}, key='group-id')
         # strictness is part of the group id; reported separately for readability
